@@ -479,7 +479,7 @@ def run_native_case(case, tier):
         except BaseException as e:
             fins.append(dict(qualname=getattr(f, '__qualname__', str(f)), error=str(e)))
     return dict(name=case.name, case=case.name, prop=case.prop, tier=case.tier, paths=evals, infeasible=0, errors=[], n_errors=0,
-                notes=[], solver_s=0, queries=0, obligations=obs, crash=crash, assumptions=list(case.assumptions),
+                notes=[], solver_s=0, queries=0, obligations=obs, crash=crash, assumptions=list(case.assumptions), stand_in=getattr(case, 'stand_in', None),
                 functions=fins, seed_failures=[], seeds_run=0, cover_runs=0, cover_failures=[],
                 wall_s=round(time.time() - t0, 3))
 
@@ -514,7 +514,8 @@ def run_case(case, tier='quick'):
 
     tmo = case.timeout_ms * (6 if tier == 'thorough' else 1)
     ex = explore.Explorer(case.name, runner, timeout_ms=tmo, max_paths=case.max_paths,
-                          max_steps=case.max_steps, check_resources=case.check_resources)
+                          max_steps=case.max_steps, check_resources=case.check_resources,
+                          budget_s=(getattr(case, 'budget_s', None) or 0) * (8 if tier == 'thorough' else 1) or None)
     crash = None
     try:
         ex.explore()
@@ -526,6 +527,7 @@ def run_case(case, tier='quick'):
     out['tier'] = case.tier
     out['crash'] = crash
     out['assumptions'] = list(case.assumptions)
+    out['stand_in'] = getattr(case, 'stand_in', None)
     fins = []
     for f in case.functions:
         try:
